@@ -29,6 +29,9 @@ ENGINE = "E1"
 FUNCTIONS = ["ioflo.aid.timing.Timer.{__init__,getElapsed,getRemaining,getExpired,restart,repeat,extend}",
              "ioflo.aid.timing.MonoTimer.{__init__,update,getElapsed,getRemaining,getExpired,restart,repeat,extend}",
              "ioflo.aid.timing.StoreTimer.{__init__,getElapsed,getRemaining,getExpired,restart,repeat,extend}"]
+TECHNIQUE = "E1: path-wise symbolic execution of the real Timer/MonoTimer/StoreTimer objects (CrossHair engine, z3); clock double with symbolic integer readings"
+LEVEL_TEXT = "bounded model checking: inductive step from any valid timer state (one op), elapsed-monotonicity over 1-2 non-restarting ops, constructor + 2/3 ops; integers in [0,100000]"
+LEVEL_NOTE = "exact-time regime (integers); one clock reading per timer operation; MonoTimer(retro=False) backward jumps 1..3 units"
 ASSUMPTIONS = [
     "ioflo.aid.timing.time is replaced by a clock double; StoreTimer reads store.stamp of a real Store (built without __init__)",
     "the clock reading is constant during one timer operation and arbitrary (no monotonicity) between operations",
